@@ -71,6 +71,29 @@ func intentIssue(h *Hist) bool {
 		max = big.NewInt(1)
 		total = big.NewInt(1)
 	}
+	// supply combinations the token contract must refuse (total above max, non-mintable with total != max,
+	// max of zero or above 2^255-1): one slip in that validation breaks the supply bound
+	if c.Weighted("issue.hostileSupply", 5, 1) == 1 {
+		switch c.Pick("issue.hostileKind", 5) {
+		case 0:
+			total = new(big.Int).Add(max, big.NewInt(int64(c.Int("issue.over", 1, 1000))))
+		case 1:
+			mintable = false
+			total = new(big.Int).Add(max, big.NewInt(990))
+		case 2:
+			mintable = false
+			if max.Cmp(big.NewInt(2)) < 0 {
+				max = big.NewInt(10)
+			}
+			total = new(big.Int).Sub(max, big.NewInt(1))
+		case 3:
+			max = big.NewInt(0)
+			total = big.NewInt(0)
+		default:
+			max = new(big.Int).Lsh(big.NewInt(1), 255)
+			total = new(big.Int).Set(max)
+		}
+	}
 	n := len(h.TokenList())
 	data := definition.ABIToken.PackMethodPanic(definition.IssueMethodName, fmt.Sprintf("Verif-Token.%d", n), fmt.Sprintf("VT%d", n), "verif.test",
 		total, max, uint8(c.Int("issue.dec", 0, 18)), mintable, c.Bool("issue.burnable"), c.Bool("issue.utility"))
